@@ -300,6 +300,25 @@ func genEntriesTok(r *Rng, tier string) string {
 	}
 	for i := range p {
 		rec := genMapNode(r, 2, tier, false)
+		if r.Chance(5) && rec.K == KMap {
+			// a value of an unusual Go type that the stream writer encodes (named byte slices as bin, a typed map, a Duration)
+			var xv *Node
+			switch r.Intn(4) {
+			case 0:
+				xv = nBin(r.Bytes(4))
+				xv.X = "p"
+			case 1:
+				xv = nBin(r.Bytes(r.Intn(9)))
+				xv.X = "j"
+			case 2:
+				xv = nInt(int64(r.Intn(1000000)))
+				xv.X = "d"
+			default:
+				xv = nInt(int64(r.Intn(100)))
+				xv.X = "m"
+			}
+			rec.A = append(rec.A, nStr([]byte("xtype")), xv)
+		}
 		if r.Chance(2) || i == bad {
 			poison(r, rec)
 		}
